@@ -196,6 +196,15 @@ Relayout(c) ==
            Addr0(c.L, [d \in DOMAIN j |-> c.sub.offs[k][d] + j[d]]) - Addr0(c.L, c.sub.offs[k]) = Addr0(c.sub.L, j)>>
   >>)
 
+(* the strided type of a subview follows from its source and its static offsets / steps (a dynamic entry, -1, claims nothing) *)
+SubviewType(c) ==
+  LET n == Len(c.sstr)
+      RECURSIVE Off(_) Off(d) == IF d > n THEN 0 ELSE c.offs[d] * c.sstr[d] + Off(d + 1) IN
+  First(<<
+    <<"SubviewStridesFollowFromOperands", \A d \in 1..n : c.rstr[d] = -1 \/ c.rstr[d] = c.sstr[d] * c.steps[d]>>,
+    <<"SubviewOffsetFollowsFromOperands", c.roff = -1 \/ c.soff = -1 \/ c.roff = c.soff + Off(1)>>
+  >>)
+
 EqCase(c) == First(<< <<c.clause, c.x = c.y>> >>)
 
 JudgeObj(c) ==
@@ -216,6 +225,7 @@ JudgeObj(c) ==
     [] c.kind = "dispatchdecl" -> DispatchDecl(c)
     [] c.kind = "pe" -> PECase(c)
     [] c.kind = "relayout" -> Relayout(c)
+    [] c.kind = "subviewtype" -> SubviewType(c)
     [] c.kind = "chosenlayout" -> ChosenLayout(c)
     [] OTHER -> "machinery:unknown-kind"
 
